@@ -24,12 +24,13 @@ var windowChoices = []int{1, 2, 3, 7, 64, 1000, 65536, 0} // 0 = library default
 var bufChoices = []int{16, 17, 100, 4096, 0}
 
 type netConfig struct {
-	Window      int  `json:"window"`
-	WriteQueue  int  `json:"write_queue"`
-	ReadBuf     int  `json:"read_buffer"`
-	WriteBuf    int  `json:"write_buffer"`
-	Compression bool `json:"compression"`
-	Procs       int  `json:"gomaxprocs"`
+	Window      int       `json:"window"`
+	WriteQueue  int       `json:"write_queue"`
+	ReadBuf     int       `json:"read_buffer"`
+	WriteBuf    int       `json:"write_buffer"`
+	Compression bool      `json:"compression"`
+	Procs       int       `json:"gomaxprocs"`
+	Sched       schedPlan `json:"schedule_perturbation"`
 }
 
 func drawConfig(rt *rapid.T) netConfig {
